@@ -50,6 +50,12 @@ Fwd(S, o) ==
          IF \E i \in 1..Len(o.arg) : o.arg[i][2] = UNHASHABLE
          THEN {[S |-> S, r |-> Err("TypeError")]}
          ELSE {[S |-> SetAll(S, o.arg), r |-> Ok(<<>>)]}
+    (* the iterable of pairs raises after its last pair: whatever prefix the method had applied by then is applied *)
+    (* completely (both directions) - the state is that of an update with some prefix                            *)
+    [] o.op = "update_failing" ->
+         IF \E i \in 1..Len(o.arg) : o.arg[i][2] = UNHASHABLE
+         THEN {[S |-> S, r |-> Err("TypeError")], [S |-> S, r |-> Err("RuntimeError")]}
+         ELSE {[S |-> SetAll(S, SubSeq(o.arg, 1, i)), r |-> Err("RuntimeError")] : i \in 0..Len(o.arg)}
     [] o.op = "setdefault" ->
          IF k \in Dom(S) THEN {[S |-> S, r |-> Ok(<<Img(S, k)>>)]}
          ELSE {[S |-> Set(S, k, Dflt(o.d)), r |-> Ok(<<Dflt(o.d)>>)]}
